@@ -59,7 +59,9 @@ def gen_plan(rng, tier, run):
             "fseed": rng.randrange(1 << 30),
             "enum": "full" if (tier == "thorough" and rng.random() < 0.12) else "reduced",
             "double": (tier == "thorough" and rng.random() < 0.3),
-            "files": [], "plugins": {}, "bmc": rng.random() < 0.15}
+            "files": [], "plugins": {}, "bmc": rng.random() < 0.15,
+            # the process may have been started with stdout closed (`peltool ... >&-`)
+            "stdout_closed": mode == "file" and rng.random() < 0.08}
     if rng.random() < 0.25:
         plan["opts"].append("-P")
     n = rng.randint(1, 4) if mode == "json" else 1
@@ -143,7 +145,7 @@ def run_once(w, plan, originals, faults, reference=False):
         materialise(w, plan, originals)
         argv = argv_of(plan)
     res = w.run(argv, order=plan["order"], faults=faults, file_bufsize=plan["bufsize"],
-                stdout_bufsize=plan["stdout_bufsize"])
+                stdout_bufsize=plan["stdout_bufsize"], stdout_closed=bool(plan.get("stdout_closed")))
     snap = w.snapshot()
     return res, snap
 
@@ -293,6 +295,8 @@ def execute(plan):
             bump("environment:bmc")
         if plan.get("plugins"):
             bump("plans_with_fake_plugins")
+        if plan.get("stdout_closed"):
+            bump("stdout_closed_at_startup")
         w.fresh_per_run = bool(plan.get("fresh"))
         w.path_style = plan.get("path_style", "abs")
         w.rel_dot = bool(plan.get("fresh"))
